@@ -43,8 +43,6 @@ def classify_writer(stmts):
         return 'adt'
     if names & {'outputSymbol', 'decode', 'getSymbolTableID'}:
         return 'sym'
-    if any(is_call(m) and m.get('noreturn') for m in calls) or 'throwError' in names or 'fatal' in names:
-        return 'refused'
     casts = [m for m in calls if m.get('cn') == 'ramBitCast' and m.get('ta')]
     for m in casts:
         T = m['ta'][0]
@@ -54,6 +52,8 @@ def classify_writer(stmts):
             # JSON prints (int)ramBitCast<RamUnsigned>(v): the text is the signed reading of the bits
             outer = [c for s in stmts for c in walk(s) if c['k'] in ('CStyleCastExpr', 'CXXStaticCastExpr') and c.get('t') == 'int' and any(x is m for x in walk(c))]
             return 'S' if outer else 'U'
+    if not casts and (any(is_call(m) and m.get('noreturn') for m in calls) or 'throwError' in names or 'fatal' in names):
+        return 'refused'
     return 'S'        # the raw RamDomain: signed reading of the bits
 
 
